@@ -399,14 +399,14 @@ type LNode struct {
 	Zone   bool // root of a redaction zone (labels below default to DONTCARE)
 }
 
-func LS(s string) *LNode         { return &LNode{Kind: JStr, Str: s} }
-func LN(lit string) *LNode       { return &LNode{Kind: JNum, Num: lit} }
-func LB(b bool) *LNode           { return &LNode{Kind: JBool, Bool: b} }
-func LNul() *LNode               { return &LNode{Kind: JNull} }
-func LA(kids ...*LNode) *LNode   { return &LNode{Kind: JArr, Kids: kids} }
+func LS(s string) *LNode             { return &LNode{Kind: JStr, Str: s} }
+func LN(lit string) *LNode           { return &LNode{Kind: JNum, Num: lit} }
+func LB(b bool) *LNode               { return &LNode{Kind: JBool, Bool: b} }
+func LNul() *LNode                   { return &LNode{Kind: JNull} }
+func LA(kids ...*LNode) *LNode       { return &LNode{Kind: JArr, Kids: kids} }
 func (n *LNode) With(l Label) *LNode { n.Lab = l; return n }
-func (n *LNode) Keep() *LNode    { n.Lab = Label{K: LabKeep}; return n }
-func (n *LNode) DC() *LNode      { n.Lab = Label{K: LabDontCare}; return n }
+func (n *LNode) Keep() *LNode        { n.Lab = Label{K: LabKeep}; return n }
+func (n *LNode) DC() *LNode          { n.Lab = Label{K: LabDontCare}; return n }
 
 // LO builds an object from alternating key, value arguments; a key is a string (plain) or an
 // LKey (labelled).
